@@ -1,7 +1,7 @@
 #!/bin/sh
 # ./seedtest.sh <patch.diff> <ID> [tier]  — apply a seeded change to /repo, run the check, undo.
 # Prints the check's protocol lines; exit status is the check's.
-PATCH="$1"; ID="$2"; TIER="${3:-quick}"
+PATCH=$(realpath "$1"); ID="$2"; TIER="${3:-quick}"
 if ! git -C /repo diff --quiet; then echo "seedtest: /repo has uncommitted changes, refusing" >&2; exit 2; fi
 git -C /repo apply "$PATCH" || { echo "seedtest: patch does not apply" >&2; exit 2; }
 trap 'git -C /repo checkout -- . ; git -C /repo clean -fdq -- rusty_basic rusty_parser rusty_linter rusty_pc rusty_variant rusty_bit_vec rusty_common' EXIT
